@@ -50,6 +50,7 @@ class PathEffects:
         self.effects: list[tuple] = []  # (tag, detail, node)
         self.ret: str | None = None
         self.conds: list[tuple[str, bool]] = []  # (normalised test, polarity)
+        self.cond_nodes: list[tuple[ast.AST, bool]] = []
         self.lines: list[int] = []
         self.raised = False
 
@@ -247,6 +248,7 @@ class ActionModel:
                 pe.lines.append(n.line)
                 if n.kind == "test" and nxt_label in ("true", "false"):
                     pe.conds.append((norm(n.ast.test), nxt_label == "true"))
+                    pe.cond_nodes.append((n.ast.test, nxt_label == "true"))
                     if not self._feasible(n.ast.test, nxt_label == "true", env):
                         pe = None
                         break
